@@ -64,6 +64,20 @@ def c07(c):
     c.finish()
 
 
+STOP_MODEL = ("stop", "Extract.v", ["stopmodel"], "main.ml")
+
+
+def c18(c):
+    c.coq(["stop"], "C18", "StopC")
+    c.trusted += [EXTRACT_TB, NATINT_TB,
+                  "goroutine and descriptor release, and that Stop returns on the real engine, are runtime facts: observed by the harness (watchdog, runtime.NumGoroutine, /proc/self/fd), not proved",
+                  "the Async queue is FIFO with a single drainer (property C19) and the closed flag admits one teardown per connection (property C03): assumptions of the model",
+                  "Go harness cmd/stop (real engines on loopback sockets)"]
+    c.assumptions += ["nbhttp Stop/Shutdown hooks (listener mux, blocking-mode connections, executor pools) are covered by the harness oracle only"]
+    c.harness("stop", ["-n", n(c, 25, 400)], overlay=True, model=STOP_MODEL, timeout=3000)
+    c.finish()
+
+
 RESP_MODEL = ("httpresp", "Extract.v", ["rmodel"], "main.ml")
 
 
@@ -78,16 +92,18 @@ def c09(c):
 
 MODELS = [
     RESP_MODEL,
+    STOP_MODEL,
     HTTP_MODEL,
     ("mempool", "Extract.v", ["mmodel"], "main.ml"),
 ]
-HARNESSES = [("mempool", False), ("httpparse", True), ("httpresp", True), ("httpref", True)]
+HARNESSES = [("mempool", False), ("httpparse", True), ("httpresp", True), ("httpref", True), ("stop", True)]
 
 CHECKS = {
     "C06": c06,
     "C07": c07,
     "C08": c08,
     "C09": c09,
+    "C18": c18,
     "C20": c20,
 }
 
